@@ -259,8 +259,10 @@ def instantiate_component(
     """
     if isinstance(comp, str):
         mname, oname = comp.split(":", 1)
-        mod = import_module(mname)
-        comp = getattr(mod, oname)
+        comp = import_module(mname)
+        # the qualified name of a nested class or static method contains dots
+        for part in oname.split("."):
+            comp = getattr(comp, part)
 
     # make the type checker happy
     assert not isinstance(comp, str)
